@@ -38,7 +38,7 @@ ASSUMPTIONS = [
 
 NAMES = ["q0", "q1", "q2"]
 CLASSES = ["random", "exact-multiple", "multiple-plus-remainder", "constant-divisor", "univariate",
-           "incomparable-top", "per-element-leading", "number-on-the-left"]
+           "incomparable-top", "per-element-leading", "number-on-the-left", "unordered-names"]
 SPELL = ["function", "function", "operators", "reflected"]
 
 
@@ -65,8 +65,28 @@ def case_st(draw):
     else:
         names = sorted(draw(st.lists(st.sampled_from(NAMES), min_size=1, max_size=3, unique=True)),
                        key=gen.var_num)
+        if len(names) >= 2 and draw(st.integers(0, 3)) == 0:
+            # both operands store their indeterminates in the same, not index-ordered, tuple
+            # (symbols("q1,q0"), set_dimensions, polynomial_from_attributes(names=...) produce such)
+            names = names[::-1] if len(names) == 2 else list(draw(st.permutations(names)))
     case = {"cls": cls, "spelling": draw(st.sampled_from(SPELL))}
     size_b = gen.size_of(shp_b)
+    if cls == "unordered-names":
+        # both operands carry the same name tuple in non-index order and are linear in both indeterminates,
+        # so that every storage key also names a term when the columns are read in the other order
+        names = draw(st.sampled_from([["q1", "q0"], ["q2", "q0"], ["q10", "q2"], ["q2", "q1", "q0"], ["q1", "q2", "q0"]]))
+        D = len(names)
+        size_a = gen.size_of(shp_a)
+        rows = [[1 if i == j else 0 for i in range(D)] for j in range(D)] + [[0] * D]
+
+        def lin(size, lo):
+            return [[list(r), draw(st.lists(st.integers(lo, 3), min_size=size, max_size=size))] for r in rows]
+        case["dividend"] = {"names": names, "shape": list(shp_a), "kind": "i", "terms": lin(size_a, -3), "retain": False}
+        terms = lin(size_b, -3)
+        terms[0][1] = draw(st.lists(st.sampled_from([1, -1, 2, -2]), min_size=size_b, max_size=size_b))
+        case["divisor"] = {"names": names, "shape": list(shp_b), "kind": "i", "terms": terms[:draw(st.integers(2, D + 1))],
+                           "retain": False}
+        return case
     if cls == "constant-divisor":
         vals = draw(st.lists(st.sampled_from([1, 2, -2, 4, 0, -1, 3, 5] if kind == "i" else [4, 8, -8, 2, 0, 16, 6]),
                              min_size=size_b, max_size=size_b))
@@ -107,9 +127,9 @@ def case_st(draw):
     if cls == "number-on-the-left":
         # plain (non-integral) numbers on the left of / % divmod, polynomial (often int, often constant) on the right
         size_a = gen.size_of(shp_a)
-        how = draw(st.sampled_from(["array", "list", "pyfloat", "pyint"]))
+        how = draw(st.sampled_from(["array", "list", "pyfloat", "pyint", "npscalar"]))
         akind = "i" if how == "pyint" else draw(st.sampled_from(["f", "f", "i"]))
-        if how in ("pyfloat", "pyint"):
+        if how in ("pyfloat", "pyint", "npscalar"):
             shp_a = ()
             size_a = 1
         vals = draw(st.lists(st.sampled_from([30, 15, -6, 7, 2, 0, 9, -13] if akind == "f" else [7, 3, -4, 0, 9]),
@@ -227,6 +247,7 @@ def check_case(case, ctx):
     # operator spellings
     sp = case["spelling"]
     if sp != "function":
+        tag = sp + (",numpy-scalar-left" if isinstance(dd, numpy.generic) else "")
         try:
             if sp == "operators":
                 if not isinstance(dd, numpoly.ndpoly):
@@ -255,7 +276,9 @@ def check_case(case, ctx):
                 names_ = ["/ vs poly_divide", "% vs poly_remainder", "divmod vs poly_divmod"]
                 for nm, g, e in zip(names_, got, exp):
                     if g != e:
-                        return fail("operator:%s" % sp, "%s differ" % nm)
+                        if isinstance(dd, numpy.generic):  # one root cause, whatever the symptom
+                            return fail("reflected:numpy-scalar-left", "%s differ (numpy scalar on the left)" % nm)
+                        return fail("operator:%s" % tag, "%s differ" % nm)
                 if snapshot(fq) != snapshot(q) or snapshot(fr) != snapshot(r):
                     return fail("components", "poly_divide/poly_remainder differ from poly_divmod components")
                 ctx.label("spelling:" + sp)
@@ -264,9 +287,14 @@ def check_case(case, ctx):
         except ValueError:
             pass
         except Exception as err:
-            return fail("operator-exception:%s:%s" % (type(err).__name__, sp), repr(err))
+            if isinstance(dd, numpy.generic):
+                return fail("reflected:numpy-scalar-left", "numpy scalar on the left: %r" % (err,))
+            return fail("operator-exception:%s:%s" % (type(err).__name__, tag), repr(err))
 
     ctx.label("class:" + cls)
+    nm = [n for d in (case.get("dividend"), case.get("divisor"), case.get("cofactor")) if d for n in [d.get("names")] if n]
+    if any(list(n) != sorted(n, key=gen.var_num) for n in nm):
+        ctx.label("names:not-index-ordered")
     if iters >= 3:
         ctx.label("iterations>=3")
     if iters >= 6:
